@@ -26,6 +26,7 @@ type Outcome struct {
 	PanicVal  Value
 	Panicked  bool
 	Undecided string
+	PanicIn   string  // function in which the panic was raised
 	Cut       bool    // the path loaded a CutV marker (driver-defined stop)
 	Interp    *Interp // final state (heap) of this path
 }
@@ -87,7 +88,10 @@ type Config struct {
 }
 
 type undecided struct{ why string }
-type goPanic struct{ val Value }
+type goPanic struct {
+	val   Value
+	where string
+}
 
 // Interp is the state of one run.
 type Interp struct {
@@ -113,6 +117,12 @@ type Interp struct {
 	// path (Outcome.Cut); deeper loads see ordinary symbolic memory.
 	CutAddr  string
 	CutDepth int
+	// CutPrefix/CutAfter: loads (at call depth <= CutDepth) from symbolic addresses with this prefix
+	// are counted; the load number CutAfter+1 stops the path.
+	CutPrefix string
+	CutAfter  int
+	cutCount  int
+	fnStack   []*ssa.Function
 	// SymLens gives the length of opaque slices by name; index expressions into them are bounds-checked
 	// when index and length are comparable.
 	SymLens map[string]Value
@@ -229,6 +239,7 @@ func (in *Interp) runTop(run func(in *Interp) Value) (out *Outcome) {
 			case *goPanic:
 				out.Panicked = true
 				out.PanicVal = x.val
+				out.PanicIn = x.where
 			case *cutSignal:
 				out.Cut = true
 			default:
@@ -247,7 +258,11 @@ func (in *Interp) Undecided(format string, a ...any) {
 
 // Panic raises a Go-level panic in the interpreted program.
 func (in *Interp) Panic(v Value) {
-	panic(&goPanic{v})
+	where := ""
+	if len(in.fnStack) > 0 {
+		where = FuncName(in.fnStack[len(in.fnStack)-1])
+	}
+	panic(&goPanic{val: v, where: where})
 }
 
 // Effect records an observable effect.
@@ -413,6 +428,9 @@ func (in *Interp) callClosure(c *Closure, args []Value) Value {
 
 func (in *Interp) runFrame(fr *frame, start *ssa.BasicBlock) (ret Value) {
 	fn := fr.fn
+	in.fnStack = append(in.fnStack, fn)
+	depth0 := len(in.fnStack)
+	defer func() { in.fnStack = in.fnStack[:depth0-1] }()
 	defer func() {
 		e := recover()
 		if e == nil {
@@ -635,6 +653,12 @@ func (in *Interp) load(p Value, t types.Type) Value {
 		if x.Obj == nil {
 			if in.CutAddr != "" && x.SymAddr == in.CutAddr && in.depth <= in.CutDepth {
 				panic(&cutSignal{})
+			}
+			if in.CutPrefix != "" && in.depth <= in.CutDepth && strings.HasPrefix(x.SymAddr, in.CutPrefix) {
+				in.cutCount++
+				if in.cutCount > in.CutAfter {
+					panic(&cutSignal{})
+				}
 			}
 			if v, ok := in.symMem[x.SymAddr]; ok {
 				if _, cut := v.(CutV); cut {
